@@ -102,6 +102,11 @@ func (cj *CookieJar) getCookiesByHost(host string) []*fasthttp.Cookie {
 			i--
 		}
 	}
+	// the purge shortened the slice: store it back, otherwise the map keeps the old length and
+	// with it released (pooled) cookie objects and duplicated tail entries
+	if len(cookies) != len(cj.hostCookies[host]) {
+		cj.hostCookies[host] = cookies
+	}
 
 	return cookies
 }
